@@ -10,6 +10,7 @@ import (
 	"strconv"
 	"strings"
 	"syscall"
+	"time"
 	"unicode/utf8"
 )
 
@@ -180,6 +181,9 @@ type scripted struct {
 
 var errInjected = fmt.Errorf("injected read failure")
 
+// set when a nested library call made from inside Read did not return within three seconds
+var reentryBlocked bool
+
 func (s *scripted) Read(buf []byte) (int, error) {
 	s.reads++
 	r := resp{give: len(buf)}
@@ -202,7 +206,15 @@ func (s *scripted) Read(buf []byte) (int, error) {
 	if s.reenter != nil && s.reads == s.reenterAt {
 		f := s.reenter
 		s.reenter = nil
-		f()
+		// in a goroutine of its own, so that a library that blocks on re-entry (a lock held across
+		// the read) is reported instead of hanging the harness
+		done := make(chan struct{})
+		go func() { defer close(done); f() }()
+		select {
+		case <-done:
+		case <-time.After(3 * time.Second):
+			reentryBlocked = true
+		}
 	}
 	if r.err {
 		s.failed = true
